@@ -209,6 +209,8 @@ def end_no_usercmp(repo: Repo, rep):
                 operands = [x.left] + list(x.comparators)
                 if any(_is_tokenish(o) for o in operands):
                     continue
+                # `len(v) != len(node.keys)` compares two ints, whatever v is: not a comparison the user defined
+                operands = [o for o in operands if not (isinstance(o, ast.Call) and isinstance(o.func, ast.Name) and o.func.id == "len")]
                 if not any(_mentions_value(o, tainted) for o in operands):
                     continue
                 if all(isinstance(o, (ast.In, ast.NotIn)) for o in x.ops) and is_mapping:
